@@ -64,9 +64,8 @@ Conv(b) == [i \in DOMAIN b |-> [a |-> b[i].a, r |-> b[i].r, c |-> Binz(bin, b[i]
 ---------------------------------------------------------------------------
 (* documented meaning over the ghost history *)
 
-RECURSIVE OwnFrom(_, _)
-OwnFrom(a, i) == IF i > Len(hist) THEN <<>>
-                 ELSE (IF hist[i].a = a THEN <<hist[i].c>> ELSE <<>>) \o OwnFrom(a, i + 1)
+OwnFrom(a, i) == LET own == SelectSeq(SubSeq(hist, i, Len(hist)), LAMBDA h : h.a = a)
+                 IN  [j \in 1..Len(own) |-> own[j].c]
 Obs(a)   == base[a] \o OwnFrom(a, born[a] + 1)     \* rewards attributed to arm a
 DefN(a)  == Len(Obs(a))
 DefS(a)  == ISumSeq(Obs(a))
